@@ -34,10 +34,11 @@ impl Property for C01 {
         // loss-free, duplicate-free; latency uniform in [0, L]
         sc.net = swarm_net(&mut rng, &[0, 5, 50, 300, 700, 700, 1000], false);
         // long histories are expensive (every node re-bootstraps every 5 s): few, and on small networks
-        // (they come first, one per worker, so that a wall-clock budget cut never drops them)
+        // (they come early - each worker's third run - so that a wall-clock budget cut never drops
+        // them, but after the indices the determinism self-test samples)
         let long = match tier {
-            Tier::Quick => idx < 12,
-            Tier::Thorough => idx < 160,
+            Tier::Quick => (32..44).contains(&idx),
+            Tier::Thorough => (32..192).contains(&idx),
         };
         let n = if long { match tier { Tier::Quick => 2, Tier::Thorough => rng.range(2, 3) } } else { rng.range(2, 9) } as usize;
         let clustered = rng.chance(1, 4);
@@ -334,7 +335,7 @@ impl Property for C01 {
         v
     }
     fn rule(&self) -> &'static str {
-        "2..9 real serving nodes (IPv4 or IPv6, random or clustered ids, announce port set or not) that all know each other (full mesh, or a star at low latency; verified through load_contacts before the workload, else the run is not judged), loss-free with per-datagram latency uniform in [0, L], L in {0,5,50,300,700,1000} ms; the workload starts 20 s, 31..45 min or 1..3 h after start-up; 1..3 announcing searches for 1..2 info-hashes, then 1..4 searches from other nodes at an offset of 1 s .. 2 h (the first 12 runs quick / 160 thorough are day-long histories: offsets 12 h, 24 h -+ 1 min / 1 h, 1..2 info-hashes announced, one of them re-announced after 1 h / half-way / 23 h, searches on both sides of the 24 hours of the first announce and of the re-announce, a searcher after 36 h). Model: per (info-hash, contact) the acknowledged announce times per storing node. non-trivial = at least one (search, announced contact of another node) pair judged; distinct = distinct order digests"
+        "2..9 real serving nodes (IPv4 or IPv6, random or clustered ids, announce port set or not) that all know each other (full mesh, or a star at low latency; verified through load_contacts before the workload, else the run is not judged), loss-free with per-datagram latency uniform in [0, L], L in {0,5,50,300,700,1000} ms; the workload starts 20 s, 31..45 min or 1..3 h after start-up; 1..3 announcing searches for 1..2 info-hashes, then 1..4 searches from other nodes at an offset of 1 s .. 2 h (runs 32..43 quick / 32..191 thorough are day-long histories: offsets 12 h, 24 h -+ 1 min / 1 h, 1..2 info-hashes announced, one of them re-announced after 1 h / half-way / 23 h, searches on both sides of the 24 hours of the first announce and of the re-announce, a searcher after 36 h). Model: per (info-hash, contact) the acknowledged announce times per storing node. non-trivial = at least one (search, announced contact of another node) pair judged; distinct = distinct order digests"
     }
     fn assumptions(&self) -> Vec<&'static str> {
         vec!["must-find is applied only for L <= 700 ms (RTT below the 1.5 s query lifetime) and searches starting >= 1 s after the announce was stored; L = 1000 ms runs are judged for fabrication and expiry only", "10 s margin around the 24 h edge (the exact edge is C07's)"]
